@@ -14,6 +14,12 @@ Local Arguments Z.ltb : simpl never.
 Local Arguments Z.leb : simpl never.
 Local Arguments str_eqb : simpl never.
 
+(* the attribute names the parser ever writes: href, title (links), src, alt, title (images), start
+   (ordered lists), style (table cells).  ("class" is added by the fence renderer to a private copy.) *)
+Definition attr_names : list str :=
+  [s_href; [116; 105; 116; 108; 101]; s_src; [97; 108; 116]; [115; 116; 97; 114; 116]; [115; 116; 121; 108; 101]].
+Definition named_attrs (t : token) : Prop := Forall (fun kv => In (fst kv) attr_names) (tattrs t).
+
 Section IUrls.
 Context (cfg : icfg) (rf cf lt : str -> str).
 
@@ -21,13 +27,13 @@ Definition gurl (v : str) : Prop := v = [] \/ good_href rf v.
 
 (* the URL-carrying attributes of a token are good *)
 Definition W (t : token) : Prop :=
-  forall k v, In (k, AStr v) (tattrs t) -> k = s_href \/ k = s_src -> gurl v.
+  (forall k v, In (k, AStr v) (tattrs t) -> k = s_href \/ k = s_src -> gurl v) /\ named_attrs t.
 
 Lemma W_attrs t t' : tattrs t' = tattrs t -> W t -> W t'.
-Proof. unfold W. intros ->. exact (fun H => H). Qed.
+Proof. unfold W, named_attrs. intros ->. exact (fun H => H). Qed.
 
 Lemma W_nil t : tattrs t = [] -> W t.
-Proof. unfold W. intros -> k v []. Qed.
+Proof. unfold W, named_attrs. intros ->. split; [intros k v [] | constructor]. Qed.
 
 Definition env_good (e : envt) : Prop := Forall (good_ref rf) (env_refs e).
 
@@ -155,12 +161,17 @@ Qed.
 (* W for a token whose attrs are  (href|src, url) :: others  where the others carry no URL key *)
 Lemma W_one key url rest t :
   tattrs t = (key, AStr url) :: rest -> gurl url ->
-  (forall k v, In (k, AStr v) rest -> k = s_href \/ k = s_src -> False) -> W t.
+  (forall k v, In (k, AStr v) rest -> k = s_href \/ k = s_src -> False) ->
+  In key attr_names -> Forall (fun kv => In (fst kv) attr_names) rest -> W t.
 Proof.
-  intros E G R k v I K. rewrite E in I. destruct I as [I|I].
-  - injection I as _ <-. exact G.
-  - exfalso. eapply R; eassumption.
+  intros E G R NK NR. split.
+  - intros k v I K. rewrite E in I. destruct I as [I|I].
+    + injection I as _ <-. exact G.
+    + exfalso. eapply R; eassumption.
+  - unfold named_attrs. rewrite E. constructor; [exact NK | exact NR].
 Qed.
+
+Ltac names_tac := first [ solve [cbn; tauto] | solve [repeat constructor; cbn; tauto] ].
 
 Lemma push_autolink_iw st full url st' : IW st -> gurl full -> push_autolink lt st full url = Ok st' -> IW st'.
 Proof.
@@ -169,7 +180,7 @@ Proof.
     destruct (ipush s ty tag n f) as [s1|?|] eqn:IP; cbn [bind] in H; [|discriminate H|discriminate H];
     apply (ipush_iw s ty tag n f s1) in IP; [| iw |]
   end.
-  2:{ intros lvl. eapply (W_one s_href full []); [reflexivity | exact G | intros k v []]. }
+  2:{ intros lvl. eapply (W_one s_href full []); [reflexivity | exact G | intros k v [] | names_tac | names_tac]. }
   repeat ustep H. exact H.
 Qed.
 
@@ -285,7 +296,8 @@ Proof.
         (eapply (W_one s_href href);
          [ repeat match goal with |- context [if ?c then _ else _] => destruct c end; reflexivity
          | exact GF
-         | intros k v I K; cbn [In] in I; repeat (destruct I as [I|I]; [injection I as <- _; destruct K as [K|K]; discriminate K|]); exact I ]). }
+         | intros k v I K; cbn [In] in I; repeat (destruct I as [I|I]; [injection I as <- _; destruct K as [K|K]; discriminate K|]); exact I
+         | names_tac | names_tac ]). }
   rewrite ?bind_assoc in H.
   match type of H with bind (f_tokenize F ?a) _ = _ => destruct (f_tokenize F a) as [s2|?|] eqn:TK end;
     cbn [bind] in H; try discriminate H.
@@ -334,7 +346,8 @@ Proof.
         (eapply (W_one s_src href);
          [ repeat match goal with |- context [if ?c then _ else _] => destruct c end; reflexivity
          | exact GF
-         | intros k v I K; cbn [In] in I; repeat (destruct I as [I|I]; [injection I as <- _; destruct K as [K|K]; discriminate K|]); exact I ]). }
+         | intros k v I K; cbn [In] in I; repeat (destruct I as [I|I]; [injection I as <- _; destruct K as [K|K]; discriminate K|]); exact I
+         | names_tac | names_tac ]). }
   rfinish H. iw.
 Qed.
 
